@@ -354,3 +354,59 @@ package list
 //@   ensures [err_keeps_state]   err != nil ==> a.aclState == old(a.aclState) && len(a.records) == old(len(a.records)) && (forall k string :: (k in a.indexes) == old(k in a.indexes))
 //@   ensures [err_keeps_builder] err != nil ==> cast(a.recordBuilder, "*aclRecordBuilder").state == old(cast(a.recordBuilder, "*aclRecordBuilder").state)
 //@   ensures [ok_appends_one]    err == nil ==> len(a.records) == old(len(a.records)) + 1 && a.aclState != nil && cast(a.recordBuilder, "*aclRecordBuilder").state == a.aclState
+
+// ---------------------------------------------------------------------------------------------
+// C11: the hand-written partial wire decoder (keepidentity.go) never indexes out of range and
+// always makes progress (every loop has a decreasing measure), for arbitrary bytes.
+//
+//@ package google.golang.org/protobuf/encoding/protowire
+//@ func ConsumeTag
+//@   modifies nothing
+//@   ensures result2 < 0 || (0 < result2 && result2 <= len(arg0))
+//@ func ConsumeBytes
+//@   modifies nothing
+//@   ensures result1 < 0 || (0 < result1 && result1 <= len(arg0))
+//@ package github.com/anyproto/any-sync/commonspace/object/acl/list
+//@ func (*github.com/anyproto/any-sync/commonspace/object/acl/aclrecordproto.AclEncryptedReadKey).UnmarshalVT
+//@   modifies object arg0
+//@ func (*github.com/anyproto/any-sync/commonspace/object/acl/aclrecordproto.AclData).UnmarshalVT
+//@   modifies object arg0
+
+//@ func readTag
+//@   modifies nothing
+//@   requires 0 <= i && i <= len(dAtA)
+//@   ensures [progress] err == nil ==> i < ni && ni <= len(dAtA)
+//@   ensures [no_move_on_error] err != nil ==> ni == i
+//@ func readBytes
+//@   modifies nothing
+//@   requires 0 <= i && i <= len(dAtA)
+//@   ensures [progress] result2 == nil ==> i < result1 && result1 <= len(dAtA)
+//@   ensures [no_move_on_error] result2 != nil ==> result1 == i
+
+//@ func encryptedReadKeyMatches
+//@   callback isOurs modifies nothing
+//@   requires isOurs != nil
+//@   loop 0:
+//@     invariant 0 <= i && i <= l && l == len(elem)
+//@     decreases l - i
+//@ func keepReadKeyChange
+//@   callback isOurs modifies nothing
+//@   requires isOurs != nil
+//@   loop 0:
+//@     invariant 0 <= i && i <= l && l == len(dAtA) && out != nil && isOurs != nil
+//@     decreases l - i
+//@ func keepAccountRemove
+//@   callback isOurs modifies nothing
+//@   requires isOurs != nil
+//@   loop 0:
+//@     invariant 0 <= i && i <= l && l == len(dAtA) && out != nil && isOurs != nil
+//@     decreases l - i
+//@ func keepContentValue
+//@   callback isOurs modifies nothing
+//@   requires isOurs != nil
+//@ func keepIdentityFast
+//@   callback isOurs modifies nothing
+//@   requires isOurs != nil
+//@   loop 0:
+//@     invariant 0 <= i && i <= l && l == len(dAtA) && out != nil && isOurs != nil
+//@     decreases l - i
